@@ -511,6 +511,15 @@ def D55():
     a = A.SimpleContract(name='sc', nodes=N1, price='price', min_cap=0., max_cap='cap', freq='d')
     return 'daily contract, capacity series 0 / 10 per half day: upper bounds %s' % a.setup_optim_problem({'price': -np.ones(tg.T), 'cap': cap}, timegrid=tg).u
 
+@witness
+def D56():
+    import eaopack as eao, pandas as pd
+    tg = A.Timegrid(dt.date(2021, 1, 1), dt.date(2021, 1, 5), freq='d')
+    a = A.SimpleContract(name='SC', nodes=N1, price='market', min_cap=-100., max_cap=100.)
+    book = A.OrderBook('ob', N1, orders=dict(start=[pd.Timestamp(2020, 12, 1)], end=[pd.Timestamp(2020, 12, 5)], capa=[1.], price=[1.]), full_exec=True)
+    op = eao.portfolio.Portfolio([book, a]).setup_optim_problem({'market': 10 * np.ones(tg.T)}, tg)
+    return 'full execution, order wholly before the grid: executed fraction %s' % op.optimize().x[:1]
+
 if __name__ == '__main__':
     which = sys.argv[1:] or list(W)
     for k in which:
